@@ -108,7 +108,14 @@ impl FeelNumber {
   }
   ///
   pub fn even(&self) -> bool {
-    dec_is_zero(&dec_remainder(&self.0, &DEC_TWO))
+    let remainder = dec_remainder(&self.0, &DEC_TWO);
+    if dec_is_finite(&remainder) {
+      dec_is_zero(&remainder)
+    } else {
+      // the quotient does not fit in 34 digits, so the value (if it is a number at all)
+      // is an integer with a positive exponent, a multiple of ten
+      self.is_integer()
+    }
   }
   ///
   pub fn exp(&self) -> Self {
@@ -124,7 +131,8 @@ impl FeelNumber {
   }
   ///
   pub fn is_integer(&self) -> bool {
-    dec_is_integer(&self.0)
+    // the value is integral, whatever the exponent (1.0 and 1E+2 are integers)
+    dec_is_finite(&self.0) && dec_is_zero(&dec_compare(&dec_trunc(&self.0), &self.0))
   }
   ///
   pub fn is_one(&self) -> bool {
@@ -149,7 +157,8 @@ impl FeelNumber {
   }
   ///
   pub fn odd(&self) -> bool {
-    dec_is_integer(&self.0) && !dec_is_zero(&dec_remainder(&self.0, &DEC_TWO))
+    let remainder = dec_remainder(&self.0, &DEC_TWO);
+    self.is_integer() && dec_is_finite(&remainder) && !dec_is_zero(&remainder)
   }
   ///
   pub fn pow(&self, rhs: &FeelNumber) -> Option<Self> {
